@@ -164,9 +164,11 @@ def allChecked : List Step → Bool
   | .recv _ app chk :: r => subset app chk && allChecked r
   | _ :: r => allChecked r
 
-/-- every await point raises, and what it raises is a pairing or connection error -/
+/-- every await point raises, what it raises is a pairing or connection error, and there is
+    no exit that returns silently (`guardPaired`) -/
 def allGuarded : List Step → Bool
   | [] => true
+  | .guardPaired :: _ => false
   | .connect g :: r => (g != .server) && allGuarded r
   | .recv g app _ :: r => (g != .server) && app.all (fun f => errClass g f != .other) && allGuarded r
   | _ :: r => allGuarded r
